@@ -15,7 +15,6 @@
    P is any regex matcher and any format checker that treats the wire-encoding formats as annotations;
    E is any float/time library whose finite floats print as JSON numbers (Ext.law_fprint_num). *)
 From Sebuf Require Import Conform.
-From Sebuf Require Import Errors.
 From SebufProofs Require Import ProtoJsonFacts CodecExamples MappingFacts ConformFacts.
 
 (* (a) leaves: for each of the 15 scalar kinds and every typed value outside the defect classes (NaN / Inf),
